@@ -516,7 +516,7 @@ func leanCheck(theorem string) (bool, string, float64) {
 		out, err := cmd.CombinedOutput()
 		leanSecs = time.Since(t0).Seconds()
 		leanOut = string(out)
-		leanOK = err == nil && !strings.Contains(leanOut, "error")
+		leanOK = err == nil && !strings.Contains(leanOut, "error") && !strings.Contains(leanOut, "sorry")
 	})
 	src, err := os.ReadFile(leanFile)
 	if err != nil {
